@@ -628,20 +628,46 @@ package argmapper
 //@   before "paths := make([][]graph.Vertex, len(vertexT))" assert [weights-refine-the-documented-table] weightNormal == 1 && weightTyped == 5 && weightTypedOtherSubtype == 20 && weightMatchingName == -1
 
 // value(): the exported description of a vertex (a fresh Value)
+// The interface is unexported with an unexported method: its implementations are the three
+// vertex types below (closed world); the extern states what their verified bodies do.
 //@ extern (valueConverter).value :: (v any) *Value
 //@   ensures result != nil && fresh(result)
+//@   ensures [label-of-the-vertex] imp(typeis(v, *valueVertex) && as(v, *valueVertex) != nil, result.Name == as(v, *valueVertex).Name && result.Type == as(v, *valueVertex).Type && result.Subtype == as(v, *valueVertex).Subtype)
+//@   ensures [label-of-the-vertex-arg] imp(typeis(v, *typedArgVertex) && as(v, *typedArgVertex) != nil, result.Name == as(v, *typedArgVertex).Name && result.Type == as(v, *typedArgVertex).Type && result.Subtype == as(v, *typedArgVertex).Subtype)
+//@   ensures [label-of-the-vertex-out] imp(typeis(v, *typedOutputVertex) && as(v, *typedOutputVertex) != nil, result.Name == as(v, *typedOutputVertex).Name && result.Type == as(v, *typedOutputVertex).Type && result.Subtype == as(v, *typedOutputVertex).Subtype)
+//@   assigns Value, valueInternal
+//@   modifies nothing
+//@ func (*valueVertex).value
+//@   requires v != nil
+//@   ensures result != nil && fresh(result) && result.Name == v.Name && result.Type == v.Type && result.Subtype == v.Subtype && result.Value == v.Value
+//@   assigns Value, valueInternal
+//@   modifies nothing
+//@ func (*typedArgVertex).value
+//@   requires v != nil
+//@   ensures result != nil && fresh(result) && result.Name == v.Name && result.Type == v.Type && result.Subtype == v.Subtype && result.Value == v.Value
+//@   assigns Value, valueInternal
+//@   modifies nothing
+//@ func (*typedOutputVertex).value
+//@   requires v != nil
+//@   ensures result != nil && fresh(result) && result.Name == v.Name && result.Type == v.Type && result.Subtype == v.Subtype && result.Value == v.Value
 //@   assigns Value, valueInternal
 //@   modifies nothing
 
 // ---------------------------------------------------------------- call.go: callGraph (first: frame level), Call
-//@ ghost reqVerts(vs []graph.Vertex, root graph.Vertex) bool = forall(i, int, imp(0 <= i && i < len(vs), (typeis(vs[i], *valueVertex) && as(vs[i], *valueVertex) != nil) || (typeis(vs[i], *typedArgVertex) && as(vs[i], *typedArgVertex) != nil) || vs[i] == root))
+//@ ghost reqVerts(vs []graph.Vertex, root graph.Vertex) bool = forall(i, int, imp(0 <= i && i < len(vs), (typeis(vs[i], *valueVertex) && as(vs[i], *valueVertex) != nil) || (typeis(vs[i], *typedArgVertex) && as(vs[i], *typedArgVertex) != nil && as(vs[i], *typedArgVertex).Name == "") || vs[i] == root))
+//@ ghostvar cgReport bool
+//@ ghost convsListed(cs []*Func, args *argBuilder) bool = len(cs) >= len(args.convs) && forall(i, int, imp(0 <= i && i < len(args.convs), cs[i] == args.convs[i]))
 //@ func (*Func).callGraph
 //@   requires args != nil && bOK(args) && funcOK(f)
 //@   ensures  [no-user-code-but-generators] planning == old(planning) && failed == old(failed) && nexec == old(nexec)
 //@   ensures  [graph-well-formed using gOK, wf] wf0(g) && imp(err == nil, gOK(g))
 //@   ensures  [rule-instances-only] ruleInv(g)
+//@   ensures  [unsatisfied-report] imp(cgReport, err != nil && typeis(err, *ErrArgumentUnsatisfied) && as(err, *ErrArgumentUnsatisfied) != nil && as(err, *ErrArgumentUnsatisfied).Func == f && len(as(err, *ErrArgumentUnsatisfied).Args) > 0 && len(as(err, *ErrArgumentUnsatisfied).Inputs) == len(vertexI) && convsListed(as(err, *ErrArgumentUnsatisfied).Converters, args))
+//@   ensures  [report-lists-values] imp(cgReport, forall(j, int, imp(0 <= j && j < len(as(err, *ErrArgumentUnsatisfied).Args), as(err, *ErrArgumentUnsatisfied).Args[j] != nil)) && forall(j, int, imp(0 <= j && j < len(as(err, *ErrArgumentUnsatisfied).Inputs), as(err, *ErrArgumentUnsatisfied).Inputs[j] != nil)))
+//@   ensures  [supplied-values-stay] imp(err == nil || cgReport, forall(h, any, imp(in(h, ins), has(g.hash, h))))
+//@   ensures  [success-means-no-report] imp(err == nil, !cgReport)
 //@   ensures  [root-kept] imp(err == nil, typeis(vertexRoot, *rootVertex) && has(g.hash, hc(vertexRoot)) && hkind(hc(vertexRoot)) == 5)
-//@   assigns  graph.Graph, Outer, Inner, HashM, VisitM, []graph.Vertex, [][]graph.Vertex, valueVertex, typedArgVertex, typedOutputVertex, funcVertex, rootVertex, Value, valueInternal, []*Value, ErrArgumentUnsatisfied, []*Func, []interface{}, reported, dvisited, kpos, spos, fin, frozen, cnt, reqs, ins
+//@   assigns  graph.Graph, Outer, Inner, HashM, VisitM, []graph.Vertex, [][]graph.Vertex, valueVertex, typedArgVertex, typedOutputVertex, funcVertex, rootVertex, Value, valueInternal, []*Value, ErrArgumentUnsatisfied, []*Func, []interface{}, reported, dvisited, kpos, spos, fin, frozen, cnt, reqs, ins, cgReport
 //@   modifies forall(m, Inner, true), forall(m, Outer, true), forall(m, HashM, true)
 //@   tail-split
 //@   hint call-requires/.*endpoints-present using reps, step-reps, root, Add!, AddEdgeWeighted!, AddEdge!
@@ -713,6 +739,32 @@ package argmapper
 //@   loop * invariant [inputs-are-values using inputs-are-values, fresh-list] inputVerts(vertexI) && (vertexI == nil || fresh(vertexI))
 //@   loop 13 invariant [own-list using own-list, alloc] unsatisfied == nil || fresh(unsatisfied)
 //@   loop 14 invariant [own-list using own-list, alloc] inputs == nil || fresh(inputs)
+//@   before "vertexRoot = g.Add(&rootVertex{})" set cgReport = false
+//@   before "err = &ErrArgumentUnsatisfied{" set cgReport = true
+//@   loop * invariant [no-report-yet] !cgReport
+//@   loop 13 invariant [missing-listed] forall(j, int, imp(0 <= j && j < len(unsatisfied), unsatisfied[j] != nil))
+//@   loop 14 invariant [missing-listed] forall(j, int, imp(0 <= j && j < len(unsatisfied), unsatisfied[j] != nil)) && len(unsatisfied) > 0
+//@   loop 14 invariant [inputs-listed] forall(j, int, imp(0 <= j && j < len(inputs), inputs[j] != nil)) && len(inputs) == idx14
+//@   loop * invariant [convs-listed using convs-listed, graph.supplied-converters-listed] convsListed(convs, args)
+//@   after "g.Reverse().DFS(vertexRoot, func(v graph.Vertex, next func() error) error {" assert [rooted-are-recorded using DFS!, Reverse!, wf, root, visited-root] forall(x, any, imp(edge(g, x, hc(vertexRoot)), has(visited, x)))
+//@   before "g.Reverse().DFS(vertexRoot, func(v graph.Vertex, next func() error) error {" set reported = emptyset(any)
+//@   loop 1 invariant [rooted using rooted, graph.inputs-attached-to-the-root, Add!, AddEdgeWeighted!, AddEdge!] rootedSet(g, vertexRoot)
+//@   loop 2 invariant [rooted using rooted, graph.inputs-attached-to-the-root, Add!, AddEdgeWeighted!, AddEdge!] rootedSet(g, vertexRoot)
+//@   loop 3 invariant [rooted using rooted, graph.inputs-attached-to-the-root, Add!, AddEdgeWeighted!, AddEdge!] rootedSet(g, vertexRoot)
+//@   loop 4 invariant [rooted using rooted, graph.inputs-attached-to-the-root, Add!, AddEdgeWeighted!, AddEdge!] rootedSet(g, vertexRoot)
+//@   loop 5 invariant [rooted using rooted, graph.inputs-attached-to-the-root, Add!, AddEdgeWeighted!, AddEdge!] rootedSet(g, vertexRoot)
+//@   loop 6 invariant [rooted using rooted, graph.inputs-attached-to-the-root, Add!, AddEdgeWeighted!, AddEdge!] rootedSet(g, vertexRoot)
+//@   loop 7 invariant [rooted using rooted, graph.inputs-attached-to-the-root, Add!, AddEdgeWeighted!, AddEdge!] rootedSet(g, vertexRoot)
+//@   loop 8 invariant [rooted using rooted, graph.inputs-attached-to-the-root, Add!, AddEdgeWeighted!, AddEdge!] rootedSet(g, vertexRoot)
+//@   loop 9 invariant [rooted using rooted, graph.inputs-attached-to-the-root, Add!, AddEdgeWeighted!, AddEdge!] rootedSet(g, vertexRoot)
+//@   loop 10 invariant [rooted using rooted, graph.inputs-attached-to-the-root, Add!, AddEdgeWeighted!, AddEdge!] rootedSet(g, vertexRoot)
+//@   loop 11 invariant [rooted using rooted, graph.inputs-attached-to-the-root, Add!, AddEdgeWeighted!, AddEdge!] rootedSet(g, vertexRoot)
+//@   loop 12 invariant [inputs-kept using inputs-kept, rooted, rooted-are-recorded, Remove!, Reverse!, DFS!] forall(h, any, imp(in(h, ins), has(visited, h) && has(g.hash, h)))
+//@   loop 13 invariant [inputs-kept using inputs-kept] forall(h, any, imp(in(h, ins), has(g.hash, h)))
+//@   loop 14 invariant [inputs-kept using inputs-kept] forall(h, any, imp(in(h, ins), has(g.hash, h)))
+//@   loop 12 invariant [reps-non-nil using reps-non-nil, gOK, Remove!, Reverse!, DFS!] forall(k, any, imp(has(g.hash, k), g.hash[k] != nil))
+//@   loop 13 invariant [reps-non-nil using reps-non-nil, gOK, Remove!, Reverse!, DFS!] forall(k, any, imp(has(g.hash, k), g.hash[k] != nil))
+//@   loop 14 invariant [reps-non-nil using reps-non-nil, gOK, Remove!, Reverse!, DFS!] forall(k, any, imp(has(g.hash, k), g.hash[k] != nil))
 
 // Call: ghost history starts afresh (failed = nil); the three early exits and the final execution
 //@ ghostvar finalStep bool
@@ -777,7 +829,7 @@ package argmapper
 //@ ghost vsSound(vs *ValueSet) bool = forall(j, int, imp(0 <= j && j < len(vs.values), vs.values[j].Type != nil))
 //@     && forall(m, string, imp(has(vs.namedValues, m), vs.namedValues[m] != nil && vs.namedValues[m].Type != nil && vs.namedValues[m].Name == m && m != ""))
 //@     && forall(t, reflect.Type, imp(has(vs.typedValues, t), vs.typedValues[t] != nil && vs.typedValues[t].Type == t && t != nil && vs.typedValues[t].Name == ""))
-//@ ghost repOK(x any) bool = (typeis(x, *valueVertex) && as(x, *valueVertex) != nil && as(x, *valueVertex).Type != nil) || (typeis(x, *typedArgVertex) && as(x, *typedArgVertex) != nil && as(x, *typedArgVertex).Type != nil) || (typeis(x, *typedOutputVertex) && as(x, *typedOutputVertex) != nil && as(x, *typedOutputVertex).Type != nil) || (typeis(x, *funcVertex) && as(x, *funcVertex) != nil && funcOK(as(x, *funcVertex).Func)) || (typeis(x, *rootVertex) && as(x, *rootVertex) != nil)
+//@ ghost repOK(x any) bool = (typeis(x, *valueVertex) && as(x, *valueVertex) != nil && as(x, *valueVertex).Type != nil) || (typeis(x, *typedArgVertex) && as(x, *typedArgVertex) != nil && as(x, *typedArgVertex).Type != nil && as(x, *typedArgVertex).Name == "") || (typeis(x, *typedOutputVertex) && as(x, *typedOutputVertex) != nil && as(x, *typedOutputVertex).Type != nil && as(x, *typedOutputVertex).Name == "") || (typeis(x, *funcVertex) && as(x, *funcVertex) != nil && funcOK(as(x, *funcVertex).Func)) || (typeis(x, *rootVertex) && as(x, *rootVertex) != nil)
 //@ ghost gOK(g *graph.Graph) bool = forall(k, any, imp(has(g.hash, k), repOK(g.hash[k]) && hc(g.hash[k]) == k))
 
 //@ func (*funcVertex).Hashcode
